@@ -4,6 +4,7 @@ package main
 import (
 	"fmt"
 	"sort"
+	"strings"
 	"sync"
 	"testing"
 	"time"
@@ -169,6 +170,116 @@ func c02LateAnswerThenPairs(res *vlib.Result, ctxID int) {
 	res.Sample(2, rec)
 }
 
+// C02: a client pops proxy A inside A's poll-timeout window while a newer poll B
+// is waiting; the offer must still reach A's poll (not the newest poll), and a
+// later client matched with B must get B's answer to its own offer.
+func c02TimeoutWindowWithNewerPoll(res *vlib.Result, ctxID int) {
+	name := fmt.Sprintf("timeout-window-with-newer-poll/%d", ctxID)
+	b := newVBroker(ctxID, nil, "", "")
+	sidA, sidB := fmt.Sprintf("tw%d-A", ctxID), fmt.Sprintf("tw%d-B", ctxID)
+	h1 := make(chan struct{})
+	var h1once sync.Once
+	release := make(chan struct{})
+	popped := make(chan struct{}, 1)
+	c04hooks.on(hProxyTimeout, sidA, func() {
+		h1once.Do(func() { close(h1) })
+		select {
+		case <-release:
+		case <-time.After(40 * time.Second):
+		}
+	})
+	c04hooks.on(hClientPopped, sidA, func() {
+		select {
+		case popped <- struct{}{}:
+		default:
+		}
+	})
+	var mu sync.Mutex
+	gotOffer := map[string]string{}
+	tr := newTracker()
+	poll := func(sid string, clients int) {
+		tr.run("proxy-poll", sid, func() string {
+			pr := b.poll(&pollSpec{Sid: sid, Type: "standalone", NAT: NATUnrestricted, Clients: clients})
+			if pr.Offer != "" {
+				mu.Lock()
+				gotOffer[sid] = pr.Offer
+				mu.Unlock()
+				b.answer(sid, "ANSWER-OF-"+sid+"-TO-"+pr.Offer)
+				return "offer"
+			}
+			return pr.Status
+		})
+	}
+	poll(sidA, 0)
+	waitUntil(5*time.Second, func() bool { return b.debugAvailable() == 1 })
+	time.Sleep(4 * time.Second)
+	poll(sidB, 8) // newer and more loaded: the next client is given A
+	waitUntil(5*time.Second, func() bool { return b.debugAvailable() == 2 })
+	select {
+	case <-h1:
+	case <-time.After(30 * time.Second):
+		res.Inconcl(name + ": A's timeout hook not reached")
+		close(release)
+		return
+	}
+	offer1, offer2 := "OFFER-C1-"+sidA, "OFFER-C2-"+sidA
+	var c1, c2 clientResult
+	tr.run("client-poll", "", func() string {
+		c1 = b.client(&clientSpec{Transport: "post", NAT: NATRestricted, Offer: offer1})
+		return c1.Answer + c1.Error
+	})
+	select {
+	case <-popped:
+		res.Obs("client_popped_inside_timeout_window", 1)
+	case <-time.After(10 * time.Second):
+		res.Inconcl(name + ": client did not pop A inside the window")
+	}
+	close(release)
+	time.Sleep(300 * time.Millisecond)
+	tr.run("client-poll", "", func() string {
+		c2 = b.client(&clientSpec{Transport: "post", NAT: NATRestricted, Offer: offer2})
+		return c2.Answer + c2.Error
+	})
+	if !tr.waitAll(40 * time.Second) {
+		res.Obs("timeout_window_scenarios_with_open_requests", 1) // bounded completion is C04's concern
+	}
+	res.Eval(1)
+	res.Distinct(name)
+	res.Obs("timeout_window_scenarios", 1)
+	mu.Lock()
+	defer mu.Unlock()
+	rec := map[string]interface{}{"case": name, "offers_received_by_polls": gotOffer, "client1": c1, "client2": c2}
+	for sid, off := range gotOffer {
+		want := "ANSWER-OF-" + sid + "-TO-" + off
+		for ci, c := range []struct {
+			offer string
+			res   clientResult
+		}{{offer1, c1}, {offer2, c2}} {
+			if c.res.Answer != "" && c.offer == off && c.res.Answer != want {
+				res.Violate("c02:cross-wired-answer", fmt.Sprintf("%s: client %d sent %q (handed to %s) but received %q", name, ci+1, c.offer, sid, c.res.Answer), rec)
+			}
+		}
+	}
+	for ci, c := range []struct {
+		offer string
+		res   clientResult
+	}{{offer1, c1}, {offer2, c2}} {
+		if c.res.Answer == "" {
+			continue
+		}
+		// the answer names the poll that posted it and the offer it answers
+		if !strings.HasSuffix(c.res.Answer, "-TO-"+c.offer) {
+			res.Violate("c02:cross-wired-answer", fmt.Sprintf("%s: client %d with offer %q received %q — the answer to another client's offer", name, ci+1, c.offer, c.res.Answer), rec)
+		} else {
+			res.Obs("timeout_window_clients_correctly_answered", 1)
+		}
+	}
+	if gotOffer[sidB] == offer1 {
+		res.Violate("c02:offer-delivered-to-another-poll", fmt.Sprintf("%s: client 1 popped proxy A, but its offer was delivered to the newer poll B", name), rec)
+	}
+	res.Sample(1, rec)
+}
+
 func TestVerifC02Steered(t *testing.T) {
 	res := vlib.NewResult("C02", "inpkg-broker-c02-steered", "steered histories: a proxy's answer is held (verif hook) between the broker's id lookup and the hand-over until its client has timed out and fresh proxy polls have registered, then released; fresh clients follow; every answer delivered must be the one posted by the poll that received that client's offer, the late answer must reach nobody; non-trivial = scenario in which the late answer was really held in the window, distinct by context")
 	defer res.Finish()
@@ -179,7 +290,13 @@ func TestVerifC02Steered(t *testing.T) {
 		wg.Add(1)
 		go func(i int) { defer wg.Done(); c02LateAnswerThenPairs(res, 30000+i) }(i)
 	}
+	for i := 0; i < n; i++ {
+		wg.Add(1)
+		go func(i int) { defer wg.Done(); c02TimeoutWindowWithNewerPoll(res, 31000+i) }(i)
+	}
 	wg.Wait()
+	res.RequireObs("client_popped_inside_timeout_window", int64(n*3/4))
+	res.RequireObs("timeout_window_clients_correctly_answered", int64(n))
 	res.RequireObs("late_answers_held_in_window", int64(n*3/4))
 	res.RequireObs("follow_up_clients_correctly_answered", int64(n))
 }
